@@ -4,7 +4,7 @@ import vf, report
 
 
 def run(pid, tier, seed, replay, module, driver_args_quick, driver_args_thorough, explanation, assumptions,
-        mc=None, describe=None, nshards=8, extra_cov=None, level="model_checking"):
+        mc=None, describe=None, nshards=8, extra_cov=None, level="model_checking", scenarios=None):
     """mc: optional list of (module, cfg_quick, cfg_thorough, workers) exhaustive design-level runs"""
     t0 = time.time()
     thorough = tier == "thorough"
@@ -51,5 +51,11 @@ def run(pid, tier, seed, replay, module, driver_args_quick, driver_args_thorough
     }
     if extra_cov:
         cov.update(extra_cov(stats))
+    if scenarios and not replay:
+        # (trace spec, projections): the TLC-enumerated dispute scenarios, executed on real chains, through the same spec
+        import scen
+        n2, c2 = scen.run(pid, scenarios[0], scenarios[1], tier, seed)
+        nnew += n2
+        cov.update(c2)
     vf.write_evidence(pid, tier, seed, level, cov, time.time() - t0, nnew, assumptions)
     return 1 if nnew else 0
